@@ -164,14 +164,24 @@ def _calls(ctx, group, layout):
                 lambda: T.mul_scalar(Y, Z), lambda: T.outer(Y, Z), lambda: T.add(Y, 2.), lambda: T.sub(Y, 2.), lambda: T.mul(Y, 2.),
                 lambda: T.sub(2., Y), lambda: T.outer_many([Y, Z]), lambda: T.interface(Y, norm=None),
                 lambda: T.interface(Y, pv, [1, 0], None, True), lambda: T.get_and_grad(Y, [1, 1]), lambda: T.norm(Z),
-                lambda: T.accuracy_on_data(Y, I2, dd), lambda: T.shape(Y), lambda: T.ranks(Y), lambda: T.size(Y), lambda: T.erank(Y)]
+                lambda: T.accuracy_on_data(Y, I2, dd), lambda: T.shape(Y), lambda: T.ranks(Y), lambda: T.size(Y), lambda: T.erank(Y),
+                # neutral number operands (a shortcut must not hand back the operand itself)
+                lambda: T.add(Y, 0.), lambda: T.add(0, Y), lambda: T.sub(Y, 0.), lambda: T.mul(Y, 1.), lambda: T.mul(1, Y),
+                lambda: T.mul(Y, 0.), lambda: T.outer_many([Y])]
     if group == 'optima':
         # beam search on a tensor that is already orthogonal (to_orth=False): no factorisation involved
         Y1 = [_layout(ctx.array('o0', (1, 2, 1)), layout), _layout(ctx.array('o1', (1, 2, 1)), layout)]
         Yd1 = [_layout(ctx.array('s0', (1, 3, 1)), layout)]
+        v1 = _layout(vec(ctx, 'v1', 3), layout)
         return [lambda: T.optima_tt_beam(Y1, 1, l2r=True, to_orth=False, p=2),
                 lambda: T.optima_tt_beam(Y1, 2, l2r=False, to_orth=False, p=4),
-                lambda: T.full(Yd1), lambda: T.copy(Yd1), lambda: T.sum(Yd1)]
+                lambda: T.full(Yd1), lambda: T.copy(Yd1), lambda: T.sum(Yd1),
+                # one-dimensional dense input (the single core must be a copy)
+                lambda: T.svd(v1, 1e-10),
+                # falsy in-place flags that are not the literal False (rank-1 cores: closed-form factorisations)
+                lambda: T.orthogonalize_right(Y1, 1, np.False_), lambda: T.orthogonalize_right(Y1, 1, 0),
+                lambda: T.orthogonalize_left(Y1, 0, np.False_), lambda: T.orthogonalize_left(Y1, 0, 0),
+                lambda: T.orthogonalize_right(Y1, 1, np.array([1, 2])[0] > 5)]
     if group == 'core':
         G = _layout(ctx.array('g', (2, 2, 2)), layout)
         R = _layout(ctx.array('r', (2, 2)), layout)
@@ -235,7 +245,7 @@ def _calls(ctx, group, layout):
     raise KeyError(group)
 
 
-N_STEPS = {'act': 26, 'core': 12, 'tensors_grid': 16, 'func': 18, 'anova_sample': 4, 'optima': 5}
+N_STEPS = {'act': 33, 'core': 12, 'tensors_grid': 16, 'func': 18, 'anova_sample': 4, 'optima': 11}
 
 
 def h_templates(ctx, group, layout, step):
@@ -311,9 +321,11 @@ def h_concrete_layouts(ctx, layout):
         teneva.tt_to_qtt([L(G) for G in teneva.rand([4, 4], 2, seed=3)])
         teneva.svd_matrix(L(rng.normal(size=(4, 4))), 1e-8)
         teneva.als(I, y, Y, nswp=2); teneva.als(I, y, Y, nswp=1, w=L(np.ones(len(I))), lamb=None)
+        teneva.als(I, y, Y, nswp=1, update_sol=1e-2); teneva.als(I, y, Y, nswp=1, update_sol=0.5, w=L(np.ones(len(I))))
+        teneva.svd(L(rng.normal(size=7)), 1e-8); teneva.svd_matrix(np.asfortranarray(rng.normal(size=(2, 2))), 1e-8)
         teneva.cross(lambda J: teneva.get_many(Y, J), Y, nswp=1)
         teneva.anova(I, y, r=2, order=2, seed=4)
-        teneva.accuracy(Y, Y); teneva.add_many([Y, Y, Y], 1e-8)
+        teneva.accuracy(Y, Y); teneva.add_many([Y, Y, Y], 1e-8); teneva.add_many([Y, 0., Y], 1e-8); teneva.add_many([2., Y], 1e-8)
         teneva.optima_tt(Y, 3); teneva.optima_tt_beam(Y, 3); teneva.optima_qtt([L(G) for G in teneva.rand([4, 4], 2, seed=5)])
         teneva.sample(teneva.mul(Y, Y), 3, seed=6); teneva.sample_square(Y, 3, seed=7)
         X = L(rng.uniform(-1, 1, size=(12, 3)))
